@@ -18,6 +18,8 @@ def cases(rng, tier):
     n = 1500 if tier == 'quick' else 12000
     return C.build_cases(rng, n, calls_per=3, style='kw', tag='c03a') + C.build_cases(rng, n // 3, calls_per=2, style=None, tag='c03b') \
         + C.scenario_cases(rng, n // 8, style='kw', tag='c03sc') + C.scenario_cases(rng, n // 16, tag='c03sd') \
+        + C.context_clash_cases(rng, 24 if tier == 'quick' else 96) \
+        + C.unprintable_cases(rng, 16 if tier == 'quick' else 64) + C.receiver_cases(rng, 12 if tier == 'quick' else 48) \
         + R.reentrant_cases(rng, n // 6, style='kw', tag='c03re') + R.wrapsof_cases(rng, n // 10, style='kw', tag='c03wo') \
         + G.gen_cases(rng, tier)           # generator functions: yield / send / return / throw / close interactions (GenWrap model)
 
@@ -30,7 +32,7 @@ def run_impl(cases):
     return G.run_impl_mixed(cases, R.run_impl)
 
 
-extra_coverage = G.coverage
+extra_coverage = C.T.with_trace_coverage(G.coverage)      # + observed branch traces of the call layer (_calltrace_common)
 
 
 def judge(case, impl, model):
@@ -56,6 +58,8 @@ def judge(case, impl, model):
     if pfail is None and claimed and s['badProduced'] and out == 'RET':
         pfail = f'a non-conforming result was handed to the caller - {C.describe_case(case)}'
     finding = None
+    if pfail and corr:
+        finding = C.shared_finding(model)         # unprintableValueEscapes / receiverByKeywordIndexError
     bad_in = bool(s['anyNonConforming'] or setter and s.get('positionalBad') or posbad)
     return {'corr': corr, 'pfail': pfail, 'finding': finding, 'nontrivial': bool(bad_in or s['badProduced']),
             'tag': f"{case['x']['kind']}/{case['x']['access'][0]}/{case['x']['flavour']}/bad={int(bad_in)}{int(s['badProduced'])}/{out}", 'why': why}
@@ -68,3 +72,6 @@ def twins(case):
 
 import _checker_common as _K
 export_state, import_state = _K.export_state, _K.import_state      # the name table travels with replays / amplified runs
+
+
+same_outcome = C.same_outcome      # amplified run: `trace` / `world` are diagnostics of sampled executions
